@@ -15,6 +15,18 @@ CHECKS = {
    text="TLC exhausts all outcome vectors (ok / each unavailability class / other errors / unsuccessful output / hang) and all completion orders of P<=3 primaries and B<=2 fallbacks for provide- and submit-style calls with caller cancellation anywhere (safety invariants plus SuccessIfAny/CancelPrompt/Terminates under fairness, two control configs that must fail); enumerated, TLC-simulated and random schedules are executed on the real eth2wrap multi client over gated mock nodes inside a testing/synctest bubble (exact quiescence, fake time) and every trace is validated against the spec.",
    note="Trusted: TLC; testing/synctest quiescence; mock nodes honour their context; error values are built as go-eth2-client produces them. Fallback decision on mixed failure classes is left nondeterministic (the statement is silent).",
    technique="TLA+ spec (MultiClient.tla) model-checked with TLC incl. liveness; schedules replayed on eth2wrap.NewMultiForT; TLC trace validation"),
+ "C02": dict(level=MC, design="6/C02", engine="QBFT",
+   text="QBFT.tla transcribes core/qbft/qbft.go rule by rule (incl. the compare-failure deviations, decided-resend rate limit, Go-map nondeterminism of the justification producers) with a Byzantine adversary bounded only by unforgeability; TLC checks Agreement and 8 further invariants exhaustively in micro-configurations (all delivery orders, N=3) plus a scripted control that must violate Agreement with quorum floor(2n/3); behaviours simulated by TLC (adversary repertoire included) and a seeded online adversary (n=3..7, up to f Byzantine members, almost-valid justifications with one defect each, loss/dup/reorder/timeouts/lagging members) drive the REAL qbft.Run of every honest member step by step and TLC validates every step's complete output (rule fired, unjust verdict, broadcast with justification, round, timer, decision) against the spec, evaluating the invariants after every step.",
+   note="Trusted: TLC; the hook-free driver (unbuffered receive channel + double sentinel barrier); assumptions A1-A3 of QBFT.tla on adversarial justification lists. Exhaustive only inside the stated micro-configurations; Byzantine breadth comes from simulation and the random adversary.",
+   technique="TLA+ spec of QBFT model-checked with TLC; TLC-simulated + adversarial random schedules replayed on the real qbft.Run; TLC trace validation of every step"),
+ "C03": dict(level=MC, design="6/C03", engine="QBFT",
+   text="Same specification and binding as C02, with DecideOnce, NonZero, LeaderProposed, Validity (no Byzantine member), QuorumBacked and DecisionFrozen evaluated after every step of every validated trace; schedules emphasise members that never or late obtain a proposal (pre-prepare justification cache), compare failures, re-proposal of prepared values and adversarial DECIDED messages; the Decide callback's (value, round, qcommit) is logged verbatim and must equal the spec's.",
+   note="Trusted: as C02. The compare-timeout arm of UponJustifiedPrePrepare is not exercised (Compare answers immediately).",
+   technique="TLA+ spec of QBFT model-checked with TLC; schedules replayed on the real qbft.Run; TLC trace validation incl. the Decide callback payload"),
+ "C04": dict(level=MC, design="6/C04", engine="QBFT",
+   text="Fault enumeration in virtual time around the real qbft.Run with the REAL round timers (eager double-linear and increasing) on a fake clock: for n=4 every crashed member x crash point (silent, or inside its k-th broadcast) x recipient subset x leader rotation, sampled for n=5..7 with up to f crashes, start offsets < 1 round, per-link latencies < 1/3 of the shortest timeout; each timed trace is validated step by step against QBFT.tla and the trace spec evaluates BoundedDecision (every running member decides in a round <= r0 + n) and NoHonestUnjust; NoHonestUnjust is also model-checked exhaustively in the untimed micro-configurations.",
+   note="Trusted: TLC; clockwork.FakeClock as time source; the discrete-event scheduler of the executor (50 ms ticks). The timed behaviour is explored by enumeration in the executor, not by an exhaustive timed TLA+ model (see DESIGN.md).",
+   technique="TLA+ spec of QBFT (untimed legality + timed trace invariants) checked with TLC; crash-point enumeration executed on real qbft.Run + real round timers; TLC trace validation"),
 }
 NA = {
  "C14": "byte-level codec fidelity / crash-freedom on arbitrary bytes: no state machine, interleaving or protocol for a TLA+ specification to enumerate; the family's own guidance places encode/decode fidelity outside its reach (DESIGN.md section 7)",
